@@ -8,36 +8,89 @@ def ustr(s, lenlen=2):
 def bof(kind): return rec(0x0809, struct.pack("<HHHHII", 0x0600, kind, 0x0DBB, 0x07CC, 0, 6))
 def xf(fmt): # 20 bytes BIFF8 XF: font, fmt, flags...
     return rec(0x00E0, struct.pack("<HHHBBBBIIH", 0, fmt, 0x0001, 0x20, 0, 0, 0, 0, 0, 0x20C0))
-def sheet_stream(rows):
+def rk_of(v):
+    """RK encoding of a number, or None when it needs a full NUMBER record"""
+    f = float(v)
+    if f == int(f) and abs(f) < 2**29:
+        return ((int(f) << 2) | 2) & 0xFFFFFFFF
+    h = f * 100
+    if h == int(h) and abs(h) < 2**29 and int(h) / 100 == f:
+        return ((int(h) << 2) | 3) & 0xFFFFFFFF
+    bits = struct.unpack("<Q", struct.pack("<d", f))[0]
+    if bits & 0x3FFFFFFFF == 0:
+        return (bits >> 32) & 0xFFFFFFFC
+    return None
+def sheet_stream(rows, variant=0, sst=None):
+    """variant 0: LABEL + NUMBER; 1: LABELSST + RK; 2: LABELSST + RK/MULRK + BLANK for some empty cells"""
     out = [bof(0x0010)]
     nr = len(rows); nc = max((len(r) for r in rows), default=0)
     out.append(rec(0x0200, struct.pack("<IIHHH", 0, nr, 0, nc, 0)))
     for r, row in enumerate(rows):
-        for c, v in enumerate(row):
-            if v is None: continue
+        c = 0
+        while c < len(row):
+            v = row[c]
+            if v is None:
+                if variant == 2 and (r + c) % 7 == 0:
+                    out.append(rec(0x0201, struct.pack("<HHH", r, c, 0)))
+                c += 1; continue
             if isinstance(v, bool):
                 out.append(rec(0x0205, struct.pack("<HHHBB", r, c, 0, int(v), 0)))
             elif isinstance(v, (int, float)):
-                out.append(rec(0x0203, struct.pack("<HHHd", r, c, 0, float(v))))
+                rk = rk_of(v) if variant else None
+                if rk is None:
+                    out.append(rec(0x0203, struct.pack("<HHHd", r, c, 0, float(v))))
+                else:
+                    run = [rk]
+                    if variant == 2:
+                        j = c + 1
+                        while j < len(row) and isinstance(row[j], (int, float)) and not isinstance(row[j], bool) and rk_of(row[j]) is not None:
+                            run.append(rk_of(row[j])); j += 1
+                    if len(run) > 1:
+                        out.append(rec(0x00BD, struct.pack("<HH", r, c) + b"".join(struct.pack("<HI", 0, k) for k in run) + struct.pack("<H", c + len(run) - 1)))
+                        c += len(run); continue
+                    out.append(rec(0x027E, struct.pack("<HHHI", r, c, 0, rk)))
             elif isinstance(v, tuple) and v[0]=="date":
                 out.append(rec(0x0203, struct.pack("<HHHd", r, c, 1, float(v[1]))))
             else:
-                data = struct.pack("<HHH", r, c, 0) + ustr(v)
-                assert len(data) <= 8224
-                out.append(rec(0x0204, data))
+                idx = sst.index_of(v) if (variant and sst is not None) else None
+                if idx is not None:
+                    out.append(rec(0x00FD, struct.pack("<HHHI", r, c, 0, idx)))
+                else:
+                    data = struct.pack("<HHH", r, c, 0) + ustr(v)
+                    assert len(data) <= 8224
+                    out.append(rec(0x0204, data))
+            c += 1
     out.append(rec(0x000A))
     return b"".join(out)
-def workbook(sheets):
+class SST:
+    """shared string table kept within one record (no CONTINUE): strings beyond the budget fall back to LABEL"""
+    def __init__(self, budget=8000):
+        self.idx = {}; self.blobs = []; self.size = 8; self.budget = budget; self.total = 0
+    def index_of(self, s):
+        if s in self.idx:
+            self.total += 1
+            return self.idx[s]
+        b = ustr(s)
+        if self.size + len(b) > self.budget:
+            return None
+        self.idx[s] = len(self.blobs); self.blobs.append(b); self.size += len(b); self.total += 1
+        return self.idx[s]
+    def record(self):
+        return rec(0x00FC, struct.pack("<II", self.total, len(self.blobs)) + b"".join(self.blobs))
+def workbook(sheets, variant=0):
     # sheets: list of (name, rows)
     glob_head = [bof(0x0005), rec(0x0042, struct.pack("<H", 1200)), rec(0x0022, struct.pack("<H", 0))]
     glob_head += [xf(0), xf(14)]
-    streams = [sheet_stream(rows) for _, rows in sheets]
+    sst = SST() if variant else None
+    streams = [sheet_stream(rows, variant, sst) for _, rows in sheets]
+    tail = [sst.record()] if sst is not None else []
+    tail.append(rec(0x000A))
     # compute boundsheet sizes
     def bs(name, off): return rec(0x0085, struct.pack("<IBB", off, 0, 0) + ustr(name, lenlen=1))
-    head_len = sum(len(x) for x in glob_head) + sum(len(bs(n,0)) for n,_ in sheets) + len(rec(0x000A))
+    head_len = sum(len(x) for x in glob_head) + sum(len(bs(n,0)) for n,_ in sheets) + sum(len(x) for x in tail)
     offs=[]; pos=head_len
     for s in streams: offs.append(pos); pos+=len(s)
-    return b"".join(glob_head) + b"".join(bs(n,o) for (n,_),o in zip(sheets,offs)) + rec(0x000A) + b"".join(streams)
+    return b"".join(glob_head) + b"".join(bs(n,o) for (n,_),o in zip(sheets,offs)) + b"".join(tail) + b"".join(streams)
 
 def ole2(stream: bytes) -> bytes:
     # minimal compound file v3, 512-byte sectors, stream >= 4096 so no ministream
